@@ -4,7 +4,13 @@ pub struct Rng(pub u64);
 
 impl Rng {
     pub fn new(seed: u64) -> Self {
-        Rng(seed.wrapping_mul(0x9E3779B97F4A7C15).wrapping_add(0x1234_5678_9ABC_DEF1))
+        // The state must not be an affine function of the seed: SplitMix64 advances its state by a constant,
+        // so `state = seed·γ + c` would make seed n+1 the stream of seed n shifted by one draw. Two rounds of
+        // the output function scatter neighbouring seeds.
+        let mut r = Rng(seed ^ 0x1234_5678_9ABC_DEF1);
+        let a = r.next_u64();
+        let b = r.next_u64();
+        Rng(a ^ b.rotate_left(29) ^ seed.wrapping_mul(0xD6E8FEB86659FD93))
     }
     pub fn next_u64(&mut self) -> u64 {
         self.0 = self.0.wrapping_add(0x9E3779B97F4A7C15);
